@@ -208,7 +208,8 @@ def run_shard(shard, rec, tier, seed):
     for i in range(shard["count"]):
         rng = harness.rng_for(seed, ID, shard["name"], i)
         case = gen.gen_chart(rng, "hostile" if i % 3 == 0 else "realistic", n_tracks=rng.choice([1, 2, 3]),
-                             n_groups=rng.choice([0, 1, 2, 6, 25]), n_globals=0, n_tempos=rng.choice([1, 2, 5, 12]))
+                             n_groups=rng.choice([0, 1, 2, 6, 25]) if i % 14 else 900, n_globals=0,
+                             n_tempos=rng.choice([1, 2, 5, 12]) if i % 14 else 60)
         drive(rec, rng, case)
         if i < 1:
             rec.sample({"tracks": sorted(case["truth"]["tracks"]), "text_head": case["text"][:200]})
